@@ -141,4 +141,101 @@ RECURSIVE AlgoRun(_, _, _)
 AlgoRun(it, ops, w2) ==
     IF ops = <<>> THEN <<>>
     ELSE LET r == AlgoStep(it, Head(ops), w2) IN <<<<r.ret, r.it.cur>>>> \o AlgoRun(r.it, Tail(ops), w2)
+
+(* ------------------------- algorithm level, part 2 ------------------------- *)
+(* The streamed codec over the CACHED BYTES.  The encoder cuts the varint stream into chunks of  *)
+(* at most K bytes (the snappy framing cuts at 64 KiB); a multi-byte varint may straddle a cut.  *)
+(* Each chunk is stored compressed ("c") or, when it does not compress, as it is ("u").  The     *)
+(* decoder walks the cached bytes chunk by chunk; the bytes of a varint that were left over from  *)
+(* the previous chunk (the remainder) are joined with the next chunk.  Go slices alias: the        *)
+(* remainder of an uncompressed chunk is a view INTO the cached bytes, the remainder of a         *)
+(* compressed chunk a view into the decoder's decode buffer (which the next decode overwrites),   *)
+(* and append(remainder, chunk...) writes IN PLACE behind the remainder when the underlying array *)
+(* is long enough - into the cached bytes.  readNextChunk therefore copies the remainder first.   *)
+(*                                                                                               *)
+(* Cells: <<"t", d, k>> k-th byte of the varint of d; <<"h", c, 0>> header of chunk c;           *)
+(* <<"z", c, 0>> the compressed payload of chunk c (one cell: shorter than what it decodes to).  *)
+MTokens(s, w2) == LET t == Tokens(Diffs(s), w2) IN [i \in DOMAIN t |-> <<"t", t[i][1], t[i][2]>>]
+MChunks(s, w2, K) == Chunks(MTokens(s, w2), K)
+RECURSIVE MMemFrom(_, _, _)
+MMemFrom(chunks, kinds, c) ==
+    IF c > Len(chunks) THEN <<>>
+    ELSE <<<<"h", c, 0>>>> \o (IF kinds[c] = "u" THEN chunks[c] ELSE <<<<"z", c, 0>>>>) \o MMemFrom(chunks, kinds, c + 1)
+MMem(chunks, kinds) == MMemFrom(chunks, kinds, 1)
+
+(* views (Go slices): none; a range of the cached bytes; a range of the decode buffer; or a      *)
+(* privately allocated array                                                                      *)
+VNone == [a |-> "none"]
+VMem(lo, hi) == [a |-> "mem", lo |-> lo, hi |-> hi]
+VBuf(lo, hi) == [a |-> "buf", lo |-> lo, hi |-> hi]
+VOwn(d) == [a |-> "own", data |-> d]
+VContents(v, mem, buf) == CASE v.a = "none" -> <<>>
+                            [] v.a = "mem" -> SubSeq(mem, v.lo, v.hi)
+                            [] v.a = "buf" -> SubSeq(buf, v.lo, v.hi)
+                            [] v.a = "own" -> v.data
+VLen(v) == CASE v.a = "none" -> 0
+             [] v.a = "own" -> Len(v.data)
+             [] OTHER -> IF v.hi >= v.lo THEN v.hi - v.lo + 1 ELSE 0
+VDrop(v, w) == IF v.a = "own" THEN VOwn(SubSeq(v.data, w + 1, Len(v.data)))
+               ELSE IF v.a = "none" THEN v ELSE [v EXCEPT !.lo = v.lo + w]
+
+(* What readNextChunk does with the remainder before it decodes / joins.  The code copies it in   *)
+(* both branches.  (Sanity: CopyBeforeDecode(v) == v.a = "buf" and CopyBeforeJoin == FALSE - "the *)
+(* copy is only needed when the remainder lives in the decode buffer" - corrupts the cached       *)
+(* bytes; PostingsCodecMemMC then fails.)                                                         *)
+CopyBeforeDecode(v) == TRUE
+CopyBeforeJoin == TRUE
+
+WriteAt(arr, at, d) == [i \in DOMAIN arr |-> IF i >= at /\ i < at + Len(d) THEN d[i - at + 1] ELSE arr[i]]
+
+(* iterator: [pos, b, buf, cur, err]; pos = next unread cell of the cached bytes.                  *)
+MOpen == [pos |-> 1, b |-> VNone, buf |-> <<>>, cur |-> 0, err |-> FALSE]
+
+(* readNextChunk(remainder = it.b): [ok, it, mem] *)
+MReadChunk(it, mem, chunks, kinds) ==
+    IF it.pos > Len(mem) THEN [ok |-> FALSE, it |-> it, mem |-> mem]                       \* normal EOF
+    ELSE IF mem[it.pos][1] # "h" \/ mem[it.pos][2] \notin DOMAIN chunks
+      THEN [ok |-> FALSE, it |-> [it EXCEPT !.err = TRUE], mem |-> mem]                      \* unknown chunk type / garbage
+    ELSE
+    LET c == mem[it.pos][2]
+        toks == chunks[c]
+        n == Len(toks)
+        rem == it.b
+        rl == VLen(rem)
+    IN  IF kinds[c] = "c"
+        THEN IF it.pos + 1 > Len(mem) \/ mem[it.pos + 1] # <<"z", c, 0>>
+               THEN [ok |-> FALSE, it |-> [it EXCEPT !.err = TRUE], mem |-> mem]             \* mismatched checksum
+             ELSE LET rem1 == IF rl > 0 /\ CopyBeforeDecode(rem) THEN VOwn(VContents(rem, mem, it.buf)) ELSE rem
+                      buf2 == toks \o SubSeq(it.buf, n + 1, Len(it.buf))                    \* s2.Decode(it.buf, ...)
+                  IN  IF rl = 0 THEN [ok |-> TRUE, mem |-> mem, it |-> [it EXCEPT !.pos = it.pos + 2, !.buf = buf2, !.b = VBuf(1, n)]]
+                      ELSE IF rem1.a = "mem" /\ rem1.hi + n <= Len(mem)                      \* append in place, into the cached bytes
+                        THEN [ok |-> TRUE, mem |-> WriteAt(mem, rem1.hi + 1, toks),
+                              it |-> [it EXCEPT !.pos = it.pos + 2, !.buf = buf2, !.b = VMem(rem1.lo, rem1.hi + n)]]
+                      ELSE [ok |-> TRUE, mem |-> mem,
+                            it |-> [it EXCEPT !.pos = it.pos + 2, !.buf = buf2, !.b = VOwn(VContents(rem1, mem, buf2) \o toks)]]
+        ELSE IF it.pos + n > Len(mem) \/ SubSeq(mem, it.pos + 1, it.pos + n) # toks
+               THEN [ok |-> FALSE, it |-> [it EXCEPT !.err = TRUE], mem |-> mem]             \* short read / mismatched checksum
+             ELSE LET rem1 == IF rl > 0 /\ CopyBeforeJoin THEN VOwn(VContents(rem, mem, it.buf)) ELSE rem
+                  IN  IF rl = 0 THEN [ok |-> TRUE, mem |-> mem, it |-> [it EXCEPT !.pos = it.pos + 1 + n, !.b = VMem(it.pos + 1, it.pos + n)]]
+                      ELSE IF rem1.a = "mem" /\ rem1.hi + n <= Len(mem)
+                        THEN [ok |-> TRUE, mem |-> WriteAt(mem, rem1.hi + 1, toks),
+                              it |-> [it EXCEPT !.pos = it.pos + 1 + n, !.b = VMem(rem1.lo, rem1.hi + n)]]
+                      ELSE [ok |-> TRUE, mem |-> mem,
+                            it |-> [it EXCEPT !.pos = it.pos + 1 + n, !.b = VOwn(VContents(rem1, mem, it.buf) \o toks)]]
+
+(* Decbuf.Uvarint64 on the view: <<ok, value, width>>; garbage cells never form a varint *)
+MReadUvarint(cells, w2) ==
+    IF cells = <<>> \/ cells[1][1] # "t" THEN <<FALSE, 0, 0>>
+    ELSE LET w == Width(cells[1][2], w2) IN
+         IF Len(cells) < w \/ \E k \in 1..w : cells[k] # <<"t", cells[1][2], k>> THEN <<FALSE, 0, 0>>
+         ELSE <<TRUE, cells[1][2], w>>
+
+(* Next on the cached bytes: [ret, it, mem] *)
+RECURSIVE MNext(_, _, _, _, _)
+MNext(it, mem, chunks, kinds, w2) ==
+    LET r == MReadUvarint(VContents(it.b, mem, it.buf), w2) IN
+    IF r[1] THEN [ret |-> TRUE, mem |-> mem, it |-> [it EXCEPT !.cur = it.cur + r[2], !.b = VDrop(it.b, r[3])]]
+    ELSE LET rc == MReadChunk(it, mem, chunks, kinds) IN
+         IF ~rc.ok THEN [ret |-> FALSE, mem |-> rc.mem, it |-> rc.it]
+         ELSE MNext(rc.it, rc.mem, chunks, kinds, w2)
 =============================================================================
